@@ -96,7 +96,7 @@ def bounded_standin(pid, tier, seed, bdir):
     for cmd, qa, ta in NATIVE[pid]:
         rec = run_native(cmd, ta if tier == "thorough" else qa, seed)
         if rec.get("status") == "violation":
-            return {"name": cmd, "violation": rec["violation"], "summary": rec.get("bound")}
+            return {"name": cmd, "violation": rec["violation"], "summary": rec.get("bound"), "cmd": rec.get("cmd")}
         if rec.get("status") == "crashed":
             return {"name": cmd, "violation": {"input": {"cmd": cmd}, "real": {"crash": rec.get("stderr", "")[-800:]}, "expected": "no panic"}, "summary": "crash"}
         summ.append("%s: %s evaluations, bound: %s" % (cmd, rec.get("evaluations"), rec.get("bound")))
@@ -120,5 +120,6 @@ def run_for(pid, tier, seed, bdir, spec):
         if rec.get("status") == "violation":
             v = rec["violation"]
             viol.append({"obligation": "bounded:" + cmd, "backend": "native-bounded", "messages": [],
-                         "input": {"input": v.get("input"), "real": v.get("real"), "expected": v.get("expected"), "reproduced": True}})
+                         "input": {"input": v.get("input"), "real": v.get("real"), "expected": v.get("expected"), "reproduced": True,
+                                   "found_by": rec.get("cmd"), "bound": rec.get("bound")}})
     return out, viol
